@@ -83,10 +83,8 @@ func checkC05(p *Prog, r *Report) {
 			nSucc++
 			tagged := false
 			for _, g := range Guards(b) {
-				if ex, isEx := g.Cond.(*ssa.Extract); isEx && ex.Index == 1 && g.Val {
-					if lk, isLk := ex.Tuple.(*ssa.Lookup); isLk && lk.CommaOk {
-						tagged = true
-					}
+				if g.Val && boolImpliesTagFound(g.Cond, 0) {
+					tagged = true
 				}
 				if bo, isB := g.Cond.(*ssa.BinOp); isB {
 					if c, isC := bo.X.(*ssa.Call); isC && builtinName(&c.Call) == "len" {
@@ -461,4 +459,72 @@ func c05KeepNodeManagement(p *Prog, w *WireNil, r *Report) {
 	}
 	r.Floor("R7", "removals of remote entities in the inbound tree", nRem, 1)
 	r.Floor("R7", "feature wipes in the inbound tree", nWipe, 1)
+}
+
+// boolImpliesTagFound: the boolean is true only if a comma-ok look-up in a tag map
+// found its key — the ok result itself, or the matching result of a repository
+// helper all of whose returns yield false, such an ok, or true under such an ok.
+func boolImpliesTagFound(v ssa.Value, depth int) bool {
+	if depth > 3 {
+		return false
+	}
+	switch x := v.(type) {
+	case *ssa.Extract:
+		if lk, isLk := x.Tuple.(*ssa.Lookup); isLk && lk.CommaOk && x.Index == 1 {
+			return true
+		}
+		c, isCall := x.Tuple.(*ssa.Call)
+		if !isCall {
+			return false
+		}
+		h := c.Call.StaticCallee()
+		if h == nil || h.Blocks == nil || !strings.HasPrefix(fnPkgPath(h), repoMod) {
+			return false
+		}
+		n := 0
+		for _, b := range h.Blocks {
+			ret, isRet := b.Instrs[len(b.Instrs)-1].(*ssa.Return)
+			if !isRet {
+				continue
+			}
+			if x.Index >= len(ret.Results) {
+				return false
+			}
+			rv := ret.Results[x.Index]
+			if k, isK := constBool(rv); isK {
+				if !k {
+					continue
+				}
+				under := false
+				for _, g := range Guards(b) {
+					if g.Val && boolImpliesTagFound(g.Cond, depth+1) {
+						under = true
+					}
+				}
+				if !under {
+					return false
+				}
+				n++
+				continue
+			}
+			if !boolImpliesTagFound(rv, depth+1) {
+				return false
+			}
+			n++
+		}
+		return n > 0
+	case *ssa.Phi:
+		n := 0
+		for _, e := range x.Edges {
+			if k, isK := constBool(e); isK && !k {
+				continue
+			}
+			if !boolImpliesTagFound(e, depth+1) {
+				return false
+			}
+			n++
+		}
+		return n > 0
+	}
+	return false
 }
